@@ -1,0 +1,102 @@
+//go:build verif
+
+// Verification hooks for the model-based check of property C11 (/verif, spec/Stream.tla).
+// Add-only, compiled only with the build tag "verif". The harness owns the schedule: the
+// publisher goroutine (EventPublisher.Run) is NOT started, VerifDrainOne executes exactly one
+// iteration of its loop body. Everything else is a read-only accessor used to project the
+// publisher's state; none of the functions below changes behaviour of existing code.
+
+package stream
+
+import "sync/atomic"
+
+// VerifDrainOne pops exactly one queued batch of publishCh, if there is one, and hands it to
+// publishEvent - one iteration of the select loop in Run. It never blocks.
+func (e *EventPublisher) VerifDrainOne() bool {
+	select {
+	case update := <-e.publishCh:
+		e.publishEvent(update)
+		return true
+	default:
+		return false
+	}
+}
+
+// VerifQueueLen returns the number of committed batches that Publish queued and Run has not
+// yet appended to the topic buffers.
+func (e *EventPublisher) VerifQueueLen() int {
+	return len(e.publishCh)
+}
+
+// VerifExpireSnapCache runs the body of the time.AfterFunc closure installed by
+// setCachedSnapshotLocked for the given topic and subject (cache TTL expiry).
+func (e *EventPublisher) VerifExpireSnapCache(topic Topic, subject Subject) {
+	e.lock.Lock()
+	defer e.lock.Unlock()
+	delete(e.snapCache, topicSubject{Topic: topic.String(), Subject: subject.String()})
+}
+
+// verifWalk returns the non-empty items reachable from item (exclusive) without blocking.
+// A terminating error item is reported as err.
+func verifWalk(item *bufferItem) (batches [][]Event, err error) {
+	for {
+		next, ok := item.NextNoBlock()
+		if !ok {
+			return batches, nil
+		}
+		if next.Err != nil {
+			return batches, next.Err
+		}
+		if len(next.Events) > 0 {
+			batches = append(batches, next.Events)
+		}
+		item = next
+	}
+}
+
+// VerifPending returns, without consuming them, the batches that successive calls of Next
+// would currently return before blocking.
+func (s *Subscription) VerifPending() ([][]Event, error) {
+	return verifWalk(s.currentItem)
+}
+
+// VerifState returns the subscription's state word (subStateOpen, subStateForceClosed, ...).
+func (s *Subscription) VerifState() uint32 {
+	return atomic.LoadUint32(&s.state)
+}
+
+// VerifTopicBuffer reports whether a topic buffer exists for (topic, subject), its reference
+// count and the events of its most recently appended item (nil for the initial sentinel).
+func (e *EventPublisher) VerifTopicBuffer(topic Topic, subject Subject) (refs int, last []Event, ok bool) {
+	e.lock.RLock()
+	defer e.lock.RUnlock()
+	tb, ok := e.topicBuffers[topicSubject{Topic: topic.String(), Subject: subject.String()}]
+	if !ok {
+		return 0, nil, false
+	}
+	return tb.refs, tb.buf.Head().Events, true
+}
+
+// VerifSnapCache returns the batches reachable from the cached snapshot for (topic, subject):
+// the snapshot itself followed by whatever has been spliced / published behind it.
+func (e *EventPublisher) VerifSnapCache(topic Topic, subject Subject) (batches [][]Event, err error, ok bool) {
+	e.lock.RLock()
+	defer e.lock.RUnlock()
+	snap, ok := e.snapCache[topicSubject{Topic: topic.String(), Subject: subject.String()}]
+	if !ok {
+		return nil, nil, false
+	}
+	// snap.First is the sentinel in front of the first snapshot item
+	batches, err = verifWalk(snap.First)
+	return batches, err, true
+}
+
+// VerifCloseTokens returns the token secret IDs carried by a close-subscription event
+// (NewCloseSubscriptionEvent); ok is false for any other payload.
+func VerifCloseTokens(ev Event) (tokens []string, ok bool) {
+	p, ok := ev.Payload.(closeSubscriptionPayload)
+	if !ok {
+		return nil, false
+	}
+	return p.tokensSecretIDs, true
+}
